@@ -74,8 +74,8 @@ PROPS = {
         assumptions=['HashMap<u32,usize> semantics (vstd)', 'locations[&label] rewritten to *locations.get(&label).unwrap() (std defines Index that way)'],
     ),
     'C06': dict(
-        units=['value_coll', 'value_arith', 'interp_vm_g4'],
-        not_covered=['list / map literals (MkList, MkDict arms and compile-time construction): unit interp', 'size(): unit builtins',
+        units=['value_coll', 'value_arith', 'interp_vm_g4', 'interp_vm_g5', 'interp_vm_g6'],
+        not_covered=['compile-time construction of list / map literals (parser contracts not reached); the run-time MkList / MkDict arms are under contract', 'size(): unit builtins',
                      'list membership is stated over PartialEq for CelValue, whose own structural impl is outside this unit'],
         assumptions=['HashMap<String,_> key model (axiom), Vec<CelValue>.len() <= isize::MAX (allocation limit)'],
     ),
